@@ -1065,6 +1065,33 @@ def _ss_claims(ctx):
     return goals
 
 
+def _ss_claim_loser(ctx):
+    """C11 (second half of each sentence): a stage refused the mutex claim durably re-queues its own StartStage (so it
+    does run after the holder finishes); a stage refused the choice claim durably hands itself to CancelStage.  Durable =
+    queue.push, or a push inside a transaction that commits; a push inside the refused (rolled back) claim transaction
+    does not count."""
+    I = ctx.I
+    msg = ctx.extra["message"]
+    goals = []
+    for t in T.transactions(ctx.st.effects):
+        cl = [e for e in t.effects if e.kind == "claim"]
+        if not t.rolled_back or not cl:
+            continue
+        if any(e.kind == "store_stage" and e.data.get("failed") for e in t.effects):
+            continue  # lost the status CAS, not the claim (C04/loser-silent)
+        last = cl[-1]
+        refused = z3.Not(last.data["result"])
+        pos = next(i for i, e in enumerate(ctx.st.effects) if e.kind == "txn_rollback" and e.data["txn"] == t.tid)
+        later = ctx.st.effects[pos + 1:]
+        ok_txn = {x.tid for x in T.transactions(ctx.st.effects) if x.committed}
+        want = "StartStage" if "steal_if_owner_terminal" in last.data["kwargs"] else "CancelStage"
+        durable = [e for e in later if (e.kind == "queue_push" and e.data["cls"] == want)
+                   or (e.kind == "push" and e.data["cls"] == want and e.data["txn"] in ok_txn)]
+        same = z3.Or(*[I.ops.eq(I.getattr(e.data["msg"], "stage_id"), I.getattr(msg, "stage_id")) for e in durable]) if durable else FALSE
+        goals.append((f"txn{t.tid}.{'mutex-loser-requeues' if want == 'StartStage' else 'choice-loser-cancels-itself'}", z3.Implies(refused, same)))
+    return goals
+
+
 def _ss_guard(ctx):
     """C02/C10: a StartStage for a stage that is neither NOT_STARTED nor a zombie does nothing at all."""
     I = ctx.I
@@ -1138,6 +1165,7 @@ def start_stage():
         Obl("C04/loser-silent", _ss_loser_silent, when="any"),
         Obl("C02/once-per-iteration/StartStage", _ss_claim_first, when="any"),
         Obl("C11/claim-in-claim-txn", _ss_claims, when="any"),
+        Obl("C11/claim-loser", _ss_claim_loser, when="any"),
         Obl("C02/guard/StartStage", _ss_guard, when="any"),
         Obl("C10/absorb/StartStage", _ss_guard, when="any"),
         Obl("C01/T1/StartStage", P.t1_processed_with_effects(_ss_t1_exempt), when="any"),
